@@ -2975,10 +2975,12 @@ class Recipe:
             # when one of them holds litres). Nothing else is allowed for, however many wells and steps there are.
             noise += 1e-15 * (abs(before_substances) + abs(after_substances))  # (the sums above, in floats)
             # (... and so does a solution made from a source, or with a solvent container, of what that holds - not of the
-            # solvent or the solutes it adds from outside)
+            # solvent or the solutes it adds from outside: a solute the solvent container lists with an amount of zero is
+            # added from outside)
             moved_by_a_solution_step = (
                 (step.operator == 'solution_from' and substance != step.operands[2]) or
-                (step.operator == 'solution' and step.frm[0] is not None and substance in step.frm[0].contents))
+                (step.operator == 'solution' and step.frm[0] is not None and
+                 step.frm[0].contents.get(substance, 0) > 0))
             if step.operator in ('transfer', 'remove') or moved_by_a_solution_step:
                 # (a remove step moves material to the trash: what the object holds less is what the trash holds, up to
                 # the order the two were summed in - over 384 wells that is more than a stored digit)
